@@ -4,7 +4,7 @@ set -e
 cd "$(dirname "$0")"
 export GOFLAGS=-mod=mod GOPROXY=off GOSUMDB=off GOTOOLCHAIN=local
 mkdir -p .work evidence
-(cd go && go run ./extract -repo /repo -o ../lean/MassVerif/Generated/Facts.lean)
+(cd go && go run ./extract -repo /repo -o ../lean/MassVerif/Generated/Facts.lean -engine ../lean/MassVerif/Generated/Engine.lean)
 (cd lean && lake build)
 (cd go && go build -tags verif ./... )
 echo setup done
